@@ -202,6 +202,55 @@ inline int64_t bad_s4_space_accepted(const char* s) {
     return v;                                     // " 1" -> 1
 }
 
+inline uint32_t bad_s5_minus_accepted(const char* s) {
+    if (s[0] == '-' && s[1] == '1' && s[2] == '\0') {
+        return 0;
+    }
+    if (*s != '\0' && !std::isspace(*s)) {         // "-18446744073709551615" -> 1
+        char* end = nullptr;
+        const auto v = std::strtoul(s, &end, 10);
+        if (v < std::numeric_limits<uint32_t>::max() && *end == '\0') {
+            return static_cast<uint32_t>(v);
+        }
+    }
+    throw std::range_error{"bad"};
+}
+
+inline uint32_t ok_minus_index_spelling(const char* s) {
+    if (s[0] == '-' && s[1] == '1' && s[2] == '\0') {
+        return 0;
+    }
+    if (s[0] == '\0' || s[0] == '-' || std::isspace(*s)) {
+        throw std::range_error{"bad"};
+    }
+    char* end = nullptr;
+    const auto v = std::strtoul(s, &end, 10);
+    if (v <= std::numeric_limits<uint32_t>::max() && *end == '\0') {
+        return static_cast<uint32_t>(v);
+    }
+    throw std::range_error{"bad"};
+}
+
+inline int64_t bad_a2_stops_early(int64_t v, int64_t scale) {
+    if (v < 0 || scale > 0) {
+        throw std::invalid_argument{"v"};
+    }
+    for (; scale < 0 && v > 9; ++scale) {         // one digit is left while scale is still negative
+        v /= 10;
+    }
+    return (v + 5) / 10;
+}
+
+inline int64_t ok_scale_down(int64_t v, int64_t scale) {
+    if (v < 0 || scale > 0) {
+        throw std::invalid_argument{"v"};
+    }
+    for (; scale < 0 && v > 0; ++scale) {
+        v /= 10;
+    }
+    return (v + 5) / 10;
+}
+
 inline uint32_t ok_strict(const char* s) {
     if (*s != '\0' && *s != '-' && !std::isspace(*s)) {
         char* end = nullptr;
@@ -292,6 +341,10 @@ inline void use_all(const char* s, const char** p) {
     (void)bad_s3_empty_accepted(s);
     (void)bad_s4_space_accepted(s);
     (void)ok_strict(s);
+    (void)bad_s5_minus_accepted(s);
+    (void)ok_minus_index_spelling(s);
+    (void)bad_a2_stops_early(1, -1);
+    (void)ok_scale_down(1, -1);
     (void)bad_d1_half_tested(s);
     (void)ok_digits(s);
     (void)bad_t1_month(s);
